@@ -14,9 +14,9 @@ CLAIMED = {
    note="TLC; harness/pv_index.hpp; label hash collisions not explored",
    tech="TLA+ specification of the index enumeration + TLC; trace validation of recorded lookup tables"),
  "C15": dict(cat="model_checking", ref="6 C15",
-   text="TLC checks transparency, exactness of the precomputed window and fill coverage of the storage layout (spec/MatsubaraStore.tla) for every window size N<=4 (thorough 6) on the box +-(2N+3); the real MatsubaraContainer4 template is instantiated over a probe source whose value encodes its arguments and its Fill/Lookup events are validated against the specification by TLC (StoreTrace.tla); real Vertex4 objects are read through the storage and through value() bit-for-bit on the same box, and value() is compared with chi - chi0 assembled from the library's own chi and G.",
+   text="TLC checks transparency, exactness of the precomputed window and fill coverage of the storage layout (spec/MatsubaraStore.tla) for every window size N<=4 (thorough 6) on the box +-(2N+3); the real MatsubaraContainer4 template is instantiated over a probe source whose value encodes its arguments and its Fill/Lookup events are validated against the specification by TLC (StoreTrace.tla); Apalache proves Transparent and WindowExact for every N >= 0 and every integer triple (spec/StoreApa.tla); real Vertex4 objects are read through the storage and through value() bit-for-bit on the same box, and value() is compared with chi - chi0 assembled from the library's own chi and G.",
    note="TLC; probe encoding; lookups before the first compute() (null source) are outside the specification; bounded N",
-   tech="TLA+ specification of the storage layout + TLC; trace validation of probe-instrumented template; bitwise relational check on Vertex4"),
+   tech="TLA+ specification of the storage layout + TLC; trace validation of probe-instrumented template; bitwise relational check on Vertex4; Apalache (SMT) for the layout with unbounded window size"),
  "C13": dict(cat="model_checking", ref="6 C13",
    text="TLC model-checks the container state machine (spec/Container4.tla): alias soundness under the two exchange symmetries (with sign), owner soundness, NonTrivialElements = elements of ElementsMap, evaluability after bulk computation, on every state reachable in 3 (thorough 4) calls; every explored transition is replayed into a real TwoParticleGFContainer comparing outcome, maps, element identities, statuses and every evaluated value against a directly constructed TwoParticleGF; random histories on 2-4 mode models are validated by TLC (ContainerTrace.tla); the exchange symmetries are checked on direct objects.",
    note="TLC; harness projection by element address; clearTerms=false only; single rank",
@@ -35,7 +35,7 @@ CLAIMED = {
    tech="TLA+ definition of the fermionic algebra + TLC; trace validation of the library's operator arithmetic (exact integer matrices)"),
  "C04": dict(cat="model_checking", ref="6 C04",
    text="TLC checks, for every preset call on every two-site layout with <=6 modes, that the transcribed term list (spec/LatticeTerms.tla) has the matrix of the operator written in the documentation (spec/Hamiltonian.tla), is Hermitian and that Kanamori (U'=U-2J) and spin-spin exchange commute with S^+; the real library builds lattices by the same calls and its Fock-space Hamiltonian matrix (symmetries ignored) is compared entry by entry, as exact integers, with the documented operators by TLC (HamTrace.tla): presets, term factories, user terms of 2/4/6 operators in arbitrary order.",
-   note="TLC; hfock projection; amplitudes multiples of 1/4; real build; addMagnetization doc/code factor 2 is known finding F13",
+   note="TLC; hfock projection; amplitudes multiples of 1/4; real build and complex build (complex user terms, complex addHopping); addMagnetization doc/code factor 2 is known finding F13",
    tech="TLA+ documented-operator definitions + TLC; trace validation of the library's Hamiltonian matrix (exact integers)"),
  "C07": dict(cat="model_checking", ref="6 C07",
    text="TLC checks that the design level of the symmetry analysis (acceptance, quantum numbers, blocks in order of first appearance, first-state image rule, bimap insertion; spec/Symmetry.tla) satisfies the definition level (blocks without gaps, H block diagonal, every c, c^+, c^+c single-target, bimaps faithful) for a catalogue of models under default/ignored/all single and pairs of linear custom candidates; on the real library (catalogue + random heterogeneous lattices incl. spinless and 3-component sites) the recorded partition, (block, position) addresses and bimaps are checked against the definition level with the exact Hamiltonian by TLC (SymmetryTrace.tla), and the analysis must complete without error.",
@@ -43,11 +43,11 @@ CLAIMED = {
    tech="TLA+ design/definition levels of the symmetry analysis + TLC; trace validation of recorded partitions and block maps"),
  "C03": dict(cat="model_checking", ref="6 C03",
    text="On catalogue + random Hermitian models under several partitions TLC (SpectrumTrace.tla) checks: prepared block matrices equal the exact Fock-space Hamiltonian (exact integers), H has no element between recorded blocks, every block has as many eigenpairs as states with residual and orthonormality below 1e-9 against that exact matrix (hence the union of block spectra is the full spectrum, no reference eigensolver needed), ground energy is the minimum over blocks, getEigenValues() is the concatenation and getEigenValue(label) is the entry at (block, position) of the label.",
-   note="TLC; residual arithmetic by Eigen in the harness against matrices TLC proved exact; tolerance 1e-9; real build",
+   note="TLC; residual arithmetic by Eigen in the harness against matrices TLC proved exact; tolerance 1e-9; real build and complex build (complex-Hermitian user terms)",
    tech="TLA+ exact Hamiltonian + TLC trace validation of the recorded eigen-system (exact matrices, quantised residuals)"),
  "C10": dict(cat="model_checking", ref="6 C10",
    text="Every stored c^+_i, c_i (container adjoint shortcut and one-by-one) and c^+_i c_j of catalogue + random models under several partitions is rotated back to the Fock basis with the stored eigenvectors and compared by TLC (FieldOpTrace.tla) with the exact Jordan-Wigner matrix of spec/Fermion.tla to 1e-9 per entry; the part-by-part adjoint relation of stored c and c^+ is checked; CAR of the Jordan-Wigner matrices is checked by TLC, so the assembled anticommutators follow.",
-   note="TLC; rotation arithmetic by Eigen in the harness; tolerance 1e-9; real build",
+   note="TLC; rotation arithmetic by Eigen in the harness; tolerance 1e-9; real build and complex build (complex-Hermitian user terms)",
    tech="TLA+ Jordan-Wigner definition + TLC trace validation of rotated-back stored operators"),
  "C09": dict(cat="model_checking", ref="6 C09",
    text="On the exact family (Fock-diagonal integer models under rational canonical transformations; spec/Lehmann.tla) TLC checks the model obligations (canonical transformation, Hermitian expansion, sum rules) and prints the exact spectrum and average data; the library's weights for every state label, average energy, total/per-index occupancy, double occupancy and EnsembleAverage for all (i,j) are compared with the Gibbs state of the specification for beta from 1e-3 to 1e3 and offsets +-1000; on general models non-negativity, normalisation and the ratio law are checked against the library's own eigenvalues.",
@@ -74,8 +74,8 @@ CLAIMED = {
    note="TLC; quantisation 1e-8 (statics) / 1e-6 (G, chi, susceptibility: documented dropping of residues below 1e-8 depends on the eigenbasis)",
    tech="TLA+ observation-invariance trace specification + TLC over recorded observables under different partitions"),
  "C12": dict(cat="model_checking", ref="6 C12",
-   text="TLC computes (z-h)^-1 = Adj(z)/Det(z) by the Faddeev-LeVerrier recursion in exact integers for a catalogue of integer symmetric h (spec/Wick.tla) and checks the defining polynomial identity; the library's G_ij on and off the axis, chi for all/sampled quadruples x all 64 triples of {-2..1}^3 against the antisymmetrised product of those exact propagators, and Vertex4::value against 0, for zero, degenerate, block-diagonal and spin-mixing h at three betas.",
-   note="TLC; comparator evaluating the rational functions; real symmetric h; not limited to rational spectra",
+   text="TLC computes (z-h)^-1 = Adj(z)/Det(z) by the Faddeev-LeVerrier recursion in exact integers for a catalogue of integer symmetric h (spec/Wick.tla) and checks the defining polynomial identity; the library's G_ij on and off the axis, chi for all/sampled quadruples x all 64 triples of {-2..1}^3 against the antisymmetrised product of those exact propagators, and Vertex4::value against 0, for zero, degenerate, block-diagonal and spin-mixing h at three betas; the same with complex-Hermitian Gaussian-integer h (spec/WickC.tla) against the complex matrix-element build.",
+   note="TLC; comparator evaluating the rational functions; real symmetric and complex Hermitian h; not limited to rational spectra",
    tech="TLA+ exact rational-function oracle + TLC; comparison of the library's G, chi and vertex"),
  "C19": dict(cat="model_checking", ref="6 C19",
    text="TLC checks that the truncation design (retain rule, stripe filter; spec/Truncation.tla) satisfies its definition (a stripe is skipped only if all its blocks are discarded, a block only if no weight exceeds eps, so lost terms have all weights <= eps); on the real library the retain flags against its own weights and the world stripes of G, chi and susceptibility before/after truncation are validated by TLC (TruncTrace.tla), values are checked against the property's bounds and eps = 0 must leave every value bit-for-bit unchanged.",
